@@ -15,6 +15,10 @@ TRUSTED = [
     'Coq 8.16.1 kernel (coqc, vm_compute); coqchk in thorough tier',
     'axioms: none (Print Assumptions must report "Closed under the global context" for every theorem of Props/C02.v)',
     'hand-written Gallina model Model/Tags.v of lib/tags.py (_is_safe, _escape, repr of str/bytes, get_priority, format)',
+    'tools/gen/gen_tags_src.py: fail-closed python-ast -> Gallina translator of lib/tags.py (OrderedEnum, _is_safe, _escape, safe_format, Tag.get_priority / '
+    'get_colors / format) and lib/terminal.py (attr_fg, attr_reset) into Generated/TagsSrc.v on every run (rules in its docstring), with its vocabulary '
+    'Model/TagsPy.v + Lib/PySrc.v; C02_source_tie_* prove the translation equal to the model; repr(), str.format, curses, bytes.decode, the regex of '
+    'terminal._strip_delay stay oracles / correspondence',
     'tools/gen/gen_callsites.py: python-ast translator of every tags.safestr / tags.safe_format / .tag call site, with a WHITELIST of '
     'tool-generated expressions (listed in the generator; each kind validated dynamically on every run: all values recorded must be clean)',
     'Generated/UcdPrintable.v: str.isprintable and categories Cc/Cf/Zl/Zp/Cs of the running interpreter as range tables',
